@@ -308,6 +308,30 @@ func consumerKey(group, topic string, partition int32) consumerOffsetID {
 	return consumerOffsetID{group: group, topic: topic, partition: partition}
 }
 
+// maxTopicNameLength is the Kafka limit on topic names.
+const maxTopicNameLength = 249
+
+// ValidTopicName reports whether a topic may be created under this name. Topic names
+// become path elements of S3 object keys (path.Join cleans "." and ".." away) and of
+// etcd keys, so only the Kafka alphabet [A-Za-z0-9._-] is accepted, at most 249 bytes,
+// and never "." or "..": a name such as "a/../b" would share the objects of topic "b",
+// and partition 1 of "a/0" would live under the listing prefix of partition 0 of "a".
+func ValidTopicName(name string) bool {
+	if name == "" || len(name) > maxTopicNameLength || name == "." || name == ".." {
+		return false
+	}
+	for i := 0; i < len(name); i++ {
+		c := name[i]
+		switch {
+		case c >= 'a' && c <= 'z', c >= 'A' && c <= 'Z', c >= '0' && c <= '9':
+		case c == '.', c == '_', c == '-':
+		default:
+			return false
+		}
+	}
+	return true
+}
+
 // CreateTopic implements Store.CreateTopic.
 func (s *InMemoryStore) CreateTopic(ctx context.Context, spec TopicSpec) (*protocol.MetadataTopic, error) {
 	select {
@@ -315,7 +339,7 @@ func (s *InMemoryStore) CreateTopic(ctx context.Context, spec TopicSpec) (*proto
 		return nil, ctx.Err()
 	default:
 	}
-	if spec.Name == "" || spec.NumPartitions <= 0 {
+	if !ValidTopicName(spec.Name) || spec.NumPartitions <= 0 {
 		return nil, ErrInvalidTopic
 	}
 	if spec.ReplicationFactor <= 0 {
